@@ -1,8 +1,97 @@
 package main
 
-import "fmt"
+import (
+	"bufio"
+	"encoding/json"
+	"fmt"
+	"os"
+	"os/exec"
+	"strconv"
+	"strings"
+	"sync"
+)
 
-func checkC20(tier string) int            { return checkChain("C20", tier) }
-func replayKS(bz []byte) int              { fmt.Println("ks replay not built yet"); return 2 }
-func selftestMain(args []string) int      { fmt.Println("selftest not built yet"); return 2 }
-func ksWorkerMain(args []string) int      { return 2 }
+// selftest: determinism of the machinery. Every sampled seed is executed in separate OS processes at
+// GOMAXPROCS 1, 4 and 16 (and twice at 4); all event-trace hashes must agree. The key-store engine's
+// schedule traces are compared the same way. Exit 0 = deterministic, 2 = divergence (machinery trouble).
+func selftestMain(args []string) int {
+	n := 40
+	if len(args) > 0 {
+		if v, err := strconv.Atoi(args[0]); err == nil {
+			n = v
+		}
+	}
+	self, _ := os.Executable()
+	props := []string{"C01", "C03", "C06", "C07", "C08", "C09", "C10", "C12", "C13", "C14", "C16", "C17", "C19", "C20"}
+	type job struct {
+		prop string
+		idx  int
+		ks   bool
+	}
+	var jobs []job
+	for i := 0; i < n; i++ {
+		jobs = append(jobs, job{prop: props[i%len(props)], idx: i})
+	}
+	for i := 0; i < n/2; i++ {
+		jobs = append(jobs, job{ks: true, idx: i})
+	}
+	runOne := func(j job, gmp string) (string, error) {
+		var cmd *exec.Cmd
+		if j.ks {
+			cmd = exec.Command(self, "ksworker", "--base", "424242", "--start", fmt.Sprint(j.idx), "--stride", "1000000", "--budget", "0.001")
+		} else {
+			cmd = exec.Command(self, "worker", "--prop", j.prop, "--tier", "quick", "--base", "424242", "--start", fmt.Sprint(j.idx), "--count", "1", "--budget", "1000")
+		}
+		cmd.Env = append(os.Environ(), "GOMAXPROCS="+gmp)
+		out, err := cmd.Output()
+		if err != nil {
+			return "", err
+		}
+		sc := bufio.NewScanner(strings.NewReader(string(out)))
+		sc.Buffer(make([]byte, 1<<20), 1<<26)
+		for sc.Scan() {
+			var m map[string]interface{}
+			if json.Unmarshal(sc.Bytes(), &m) == nil {
+				if t, ok := m["trace"].(string); ok {
+					return t, nil
+				}
+			}
+		}
+		return "", fmt.Errorf("no result line")
+	}
+	var mu sync.Mutex
+	bad := 0
+	done := 0
+	sem := make(chan struct{}, 8)
+	var wg sync.WaitGroup
+	for _, j := range jobs {
+		wg.Add(1)
+		sem <- struct{}{}
+		go func(j job) {
+			defer wg.Done()
+			defer func() { <-sem }()
+			var hs []string
+			for _, g := range []string{"1", "4", "16", "4"} {
+				h, err := runOne(j, g)
+				if err != nil {
+					h = "ERR:" + err.Error()
+				}
+				hs = append(hs, h)
+			}
+			mu.Lock()
+			done++
+			same := hs[0] == hs[1] && hs[1] == hs[2] && hs[2] == hs[3] && !strings.HasPrefix(hs[0], "ERR")
+			if !same {
+				bad++
+				fmt.Printf("DIVERGENCE job=%+v traces=%v\n", j, hs)
+			}
+			mu.Unlock()
+		}(j)
+	}
+	wg.Wait()
+	fmt.Printf("selftest: %d jobs x 4 processes (GOMAXPROCS 1/4/16/4), divergent=%d\n", done, bad)
+	if bad > 0 {
+		return 2
+	}
+	return 0
+}
